@@ -1,6 +1,7 @@
 import Model
 import Spec
 import Gen
+import Proofs.Pool
 import Proofs.Retry
 import Proofs.Bufio
 /-!
@@ -110,6 +111,35 @@ theorem C07_gen : Gen.responseWriteLocked = true ∧ Gen.MessageBufferLength = 1
     Gen.responseWriteReturns = ["return msc.Write(b)", "return 0,err", "return 0,err", "return n,nil"] ∧
     Gen.serverResetCalls = [] ∧
     Gen.connBufferSources = ["c.buf=bufio.NewReadWriter(bufio.NewReader(&c.sr),bufio.NewWriter(rwc))"] := by decide
+
+/-- (pooled serialisation buffers) `WriteToStreamWithRetry` serialises into a buffer taken from
+    `writerBufferPool` and hands it back when it returns. With one put per call - what the source
+    does, `C07_pool_gen` - then for EVERY interleaving of any number of concurrent calls (and of
+    the collector emptying the pool): no buffer is ever in the hands of two calls, and no buffer
+    in use is in the pool where a third call could be given it. So the bytes one call hands to the
+    transport are its own message's. -/
+theorem C07_pool_exclusive (es : List PoolEv) (p : Pool) (h : Pool.run 1 {} es = some p) :
+    (∀ u v b, (u, b) ∈ p.held → (v, b) ∈ p.held → u = v) ∧ (∀ u b, (u, b) ∈ p.held → b ∉ p.free) :=
+  PoolInv_exclusive (PoolInv_run es {} p PoolInv_init h)
+
+/-- the discipline is needed: a call that hands its buffer back twice (once on an error path and
+    once more by the deferred put) leaves the buffer in the pool twice, and the next two calls
+    are both given it -/
+theorem C07_pool_double_put_counterexample :
+    ((Pool.run 2 {} [.acquire 0, .release 0, .acquire 1, .acquire 2]).map (·.held)) = some [(2, 0), (1, 0)] := by
+  decide
+
+/-- regenerated from every non-test file under diam/: each function that uses a pool makes one
+    getting call and defers one putting call into the same pool; the pool primitives get or put
+    exactly once -/
+theorem C07_pool_gen :
+    Gen.poolUsers.all (fun u => Pool.disciplined u.2) = true ∧
+    Gen.poolPrimitives.all (fun p => (p.2.2.1 = 1 ∧ p.2.2.2 = 0) ∨ (p.2.2.1 = 0 ∧ p.2.2.2 = 1)) = true ∧
+    (Gen.poolUsers.map (·.1)).contains "diam:Message.WriteToStreamWithRetry" = true := by decide
+
+/-- non-vacuity: three calls, the third reuses the buffer the first handed back -/
+example : ((Pool.run 1 {} [.acquire 0, .acquire 1, .release 0, .acquire 2]).map (fun p => (p.held, p.free, p.next))) =
+    some ([(2, 0), (1, 1)], [], 2) := by decide
 
 /-- non-vacuity (A): 10 bytes, budget 2: 3 accepted + temporary error, 0 + temporary, then 7 -/
 example : contract [1,2,3,4,5,6,7,8,9,10] 2 [⟨3, some .temp⟩, ⟨0, some .temp⟩, ⟨7, none⟩] ∧
